@@ -4,6 +4,9 @@ package main
 import (
 	"verifharness/fw"
 
+	_ "verifharness/checks/c01"
+	_ "verifharness/checks/c02"
+	_ "verifharness/checks/c03"
 	_ "verifharness/checks/c07"
 )
 
